@@ -4,7 +4,7 @@ from __future__ import annotations
 import ast
 
 from .. import rules
-from ..model import Model, norm
+from ..model import Model, norm, own_returns
 from ..report import Ob, OK, VIOLATED, ERROR, INFO
 from ..e5 import obligations as e5ob
 
@@ -99,7 +99,7 @@ def rule_qr_carry(model: Model):
         if isinstance(e, ast.BinOp) and isinstance(e.op, ast.Mult) and norm(e.left) == norm(e.right):
             return "squared" if is_norm(e.left) else None
         return "plain" if is_norm(e) else None
-    rets = [r for r in ast.walk(f.node) if isinstance(r, ast.Return) and r.lineno > loop.lineno and r.value is not None]
+    rets = [r for r in own_returns(f.node) if r.lineno > loop.lineno and r.value is not None]
     kinds = []
     for r in rets:
         v = expand(r.value)
